@@ -173,3 +173,25 @@ pub open spec fn h_order<T: PartialOrd>() -> bool {
 
 /// |0| = 0 (so that a magnitude above zero certifies a non-zero value)
 pub open spec fn h_abs<T: Signed>() -> bool { T::zero_spec().abs_spec() == T::zero_spec() }
+
+/// R15: `v.sort_by_key(|p| E)` with the key expression duplicated as a ghost spec closure.
+/// Assumed (std contract of a stable sort by key): permutation, sorted by key.
+#[verifier::external_body]
+pub fn ohsl_sort_by_key<T, K: Ord, F: FnMut(&T) -> K>(v: &mut Vec<T>, f: F, Ghost(key): Ghost<spec_fn(T) -> int>)
+    ensures
+        final(v)@.to_multiset() =~= old(v)@.to_multiset(),
+        final(v)@.len() == old(v)@.len(),
+        forall|i: int, j: int| 0 <= i <= j < final(v)@.len() ==> key(#[trigger] final(v)@[i]) <= key(#[trigger] final(v)@[j]),
+{
+    v.sort_by_key(f)
+}
+/// types the ghost key closure of R15 by the vector's element type
+pub open spec fn ohsl_key_of<T>(v: &Vec<T>, f: spec_fn(T) -> int) -> spec_fn(T) -> int { f }
+
+/// R7: `for t in v.drain(..)` (v: &mut Vec) yields all elements in order and leaves v empty.
+#[verifier::external_body]
+pub fn vec_take<T>(v: &mut Vec<T>) -> (r: Vec<T>)
+    ensures r@ == old(v)@, final(v)@.len() == 0,
+{
+    core::mem::take(v)
+}
